@@ -9,6 +9,7 @@ CONSTANTS
   CopyArgs = TRUE
   HtmlDep = FALSE
   LazyInit = FALSE
+  PoolBuf = FALSE
 VIEW View
 
 CHECK_DEADLOCK TRUE
